@@ -277,4 +277,34 @@ def convertChannelsT (src dst : Channels) (size fromLen toLen : Nat) : Option Un
     let m ← fromBytesT toLen (size * chanCount dst)
     dbgP (n = m)
 
+/-! ### the pixel-loop wrappers of `read_write.rs` / `uncompressed.rs` (lengths only) -/
+
+/-- `process_pixels_helper::<InPixel, OutPixel>` (read_write.rs:33): the two `cast::from_bytes(..).expect(..)`; the
+loop is a `zip` (stops at the shorter side, no check).  Returns the number of pixels processed. -/
+def processPixelsT (inSize outSize encLen decLen : Nat) : Option Nat := do
+  let n ← fromBytesT encLen inSize
+  let m ← fromBytesT decLen outSize
+  pure (min n m)
+
+/-- `process_pixels_helper_unroll::<UNROLL, InPixel, OutPixel, _>` (read_write.rs:49): the `usize` products, the two
+range slices `[..encoded_chunks_bytes]` / `[..decoded_chunks_bytes]`, the inner helper on `[InPixel; UNROLL]`, the two
+`expect`s on the rest and `debug_assert!(encoded.len() == decoded.len())` (chunk counts of the rest) -/
+def processPixelsUnrollT (unroll inSize outSize encLen decLen : Nat) : Option Unit := do
+  let pixels := encLen / inSize
+  let rolled := pixels / unroll
+  let encBytes ← ck 18446744073709551616 (rolled * (unroll * inSize))
+  let decBytes ← ck 18446744073709551616 (rolled * (unroll * outSize))
+  dbgP (encBytes ≤ encLen)
+  dbgP (decBytes ≤ decLen)
+  let _ ← processPixelsT (unroll * inSize) (unroll * outSize) encBytes decBytes
+  let n ← fromBytesT (encLen - encBytes) inSize
+  let m ← fromBytesT (decLen - decBytes) outSize
+  dbgP (n = m)
+
+/-- the specialised `B8G8R8A8_UNORM` → RGBA U8 path (uncompressed.rs:193): `for i in (0..out.len()).step_by(4)
+{ out.swap(i, i + 2) }` — `swap` indexes `i + 2` -/
+def bgraSwapT (len : Nat) : Option Unit := do
+  let _ ← mapT (fun k => dbgP (4 * k + 2 < len)) (List.range ((len + 3) / 4))
+  pure ()
+
 end Dds.TrapUnc
